@@ -349,8 +349,28 @@ class Orchestrator:  # thailint: ignore[srp]
         violations = []
         for rule in rules:
             rule_violations = self._safe_check_rule(rule, context)
-            violations.extend(rule_violations)
+            violations.extend(self._drop_suppressed(rule_violations, context))
         return violations
+
+    def _drop_suppressed(
+        self, violations: list[Violation], context: BaseLintContext
+    ) -> list[Violation]:
+        """Apply the documented suppression directives uniformly to every rule.
+
+        Several rules never consulted the ignore parser (unwrap-abuse, clone-abuse,
+        blocking-async, lbyl, cqs, file-placement), so `thailint: ignore[...]` comments had no
+        effect on them. Rules that do their own filtering are unaffected (filtering twice is
+        idempotent). The lazy-ignores rules are exempt: the suppression comments are their subject.
+        """
+        content = context.file_content
+        if not violations or not content:
+            return violations
+        return [
+            violation
+            for violation in violations
+            if violation.rule_id.startswith("lazy-ignores")
+            or not self.ignore_parser.should_ignore_violation(violation, content)
+        ]
 
     def _safe_check_rule(self, rule: BaseLintRule, context: BaseLintContext) -> list[Violation]:
         """Safely check a rule, returning empty list on error."""
